@@ -13,9 +13,9 @@ import (
 
 func init() {
 	register(&propDef{
-		ID:    "C03",
-		Title: "Client-to-location mapping is longest-prefix match over declared subnets",
-		Run:   runC03,
+		ID:          "C03",
+		Title:       "Client-to-location mapping is longest-prefix match over declared subnets",
+		Run:         runC03,
 		Explanation: "Structural necessary conditions of the subnet-to-location lookup, decided on SSA/AST: (markers) every key marker, suffix and map-type prefix the compiler writes is the constant the drivers look up; (layout) key widths of range points (4+2+16+1) and CDB subnets (2+2+16+1) agree writer↔reader; (v4offset) every IPv4-in-IPv6 prefix-length offset is 96; (default-route) a subnet is treated as its family's default route only under a test of its prefix length; (desc) the prefix-length list is emitted in descending order; (exact-first) the exact map key is tried once, before any wildcard key; (maxmask/family) the CDB scan only considers lengths between the family offset and the client's own prefix; (masked) both drivers mask the client address with its prefix before the search; (found-prefix) a predecessor key is only interpreted after its prefix was compared. The function computed by the rearranger / the scan (longest-prefix match over 2^128 addresses) is not decided.",
 	})
 }
@@ -31,6 +31,7 @@ func runC03(c *Ctx) {
 	c03MaxMask(c)
 	c03Masked(c)
 	c02FoundPrefix(c, "C03.found-prefix")
+	c03Squash(c)
 }
 
 func c03Markers(c *Ctx) {
@@ -572,7 +573,6 @@ func c03Masked(c *Ctx) {
 	}
 	c.Check(rule, fnName(fn)+"|address-masked-with-client-prefix", ok, fn.Pos(), "10.1.255.255/12 must search as 10.0.0.0/12")
 }
-
 
 // c03FamilySets: the per-family prefix-length sets are selected by the address family.
 func c03FamilySets(c *Ctx) {
